@@ -278,13 +278,11 @@ def c09_r3(ctx):
     for cl, kind in ((leaf, "leaf"), (node, "node"), (clean, "clean")):
         pf, bb, idx, rv = ctx.P.closure_sites[cl.id]
         ctx.inst("%s closure" % kind, pf.where(bb, idx))
-        caps = cl.body["captures"]
-        tys = cl.body["upvar_tys"]
-        blobs = [i for i, t in enumerate(tys) if t["s"] == "blob::Blob"]
+        blobs = [sl for sl in cl.capture_slots() if sl["ty"]["s"] == "blob::Blob"]
         if len(blobs) != 1:
             ctx.viol((cl.id, "blob-captures"), "a thread closure captures %d blobs (expected its own one)" % len(blobs), pf.where(bb, idx))
             continue
-        bo = pf.origins_of_operand(rv["ops"][blobs[0]])
+        bo = pf._op_origins(rv["ops"][blobs[0]["i"]], tuple(blobs[0]["steps"][1:]), frozenset())
         if not (len(bo) == 1 and is_call(next(iter(bo))) and "take_blob" in next(iter(bo))[0][3]):
             ctx.viol((cl.id, "blob-not-taken"), "the blob handed to the thread is not a take_blob result", pf.where(bb, idx))
             continue
